@@ -1,4 +1,5 @@
 import Proofs.Chain
+import Proofs.Liveness
 import Pegnet.Generated.Facts
 /-
   C08 — Sync liveness. Two defects found by this check were repaired in /repo (known-findings.jsonl:
@@ -151,6 +152,33 @@ theorem invalid_held_entry_is_rejected_not_fatal (P : Params) (h : Nat) (rates a
   simp only [M.get_run, hv, Bool.not_false, Bool.or_true, if_true]
   refine ⟨_, rfl, rfl⟩
 
+/-! ### liveness for the transfer class -/
+
+/-- **No transfer-only entry can fail the block** (`block_total_partial`, transaction chain):
+    whatever a validly signed transfer-only entry contains — any number of transactions and outputs,
+    change outputs, amounts at / above / far above the balance — its step of `ApplyTransactionBlock`
+    succeeds: the arrival is recorded, then the batch is applied or rejected for lack of funds.
+    Hypotheses: `hplain` is what the decoder and `Validate` guarantee for every accepted batch (known
+    asset, amounts within int64, outputs within the input); `hb`: the sender is not the burn address
+    (nobody holds its key); `hfresh`: no history row of this entry hash exists yet (an entry that is
+    recorded is skipped: `recorded_entry_is_skipped`). Conversions are the other class: their
+    failure modes are the recorded findings of this property. -/
+theorem transfer_entry_never_fails (P : Params) (h : Nat) (keymr : String) (bo : Nat) (e : TxEntry) (s : DB)
+    (a : Addr) (hb : a ≠ burnAddrAt P h) (hall : ∀ t ∈ e.txs, t.inAddr = a) (hplain : ∀ t ∈ e.txs, PlainTransfer P t)
+    (hfresh : ∀ r ∈ s.histT, r.hash ≠ e.hash) :
+    ∃ s', applyTxEntry P h keymr bo e s = .ok () s' :=
+  Pegnet.transfer_entry_never_fails P h keymr bo e s a hb hall hplain hfresh
+
+/-- the batch level of the same: applied or rejected, never a block-failing error -/
+theorem transfer_batch_applied_or_rejected (P : Params) (h : Nat) (e : TxEntry) (rates avgs : Option TMap) (s : DB)
+    (a : Addr) (hb : a ≠ burnAddrAt P h) (hall : ∀ t ∈ e.txs, t.inAddr = a) (hplain : ∀ t ∈ e.txs, PlainTransfer P t) :
+    ∃ v s', applyBatch P h e rates avgs s = .ok v s' ∧ (v = .apply ∨ v = .reject (-1)) :=
+  applyBatch_transfers_total P h e rates avgs s a hb hall hplain
+
+/-- non-vacuity: a two-output transfer with change meets `PlainTransfer` -/
+example : PlainTransfer wP { inAddr := "alice", inType := 2, inAmount := 100, transfers := [⟨"bob", 70⟩, ⟨"alice", 30⟩], conversion := 0 } :=
+  ⟨by decide, by decide, by decide, by decide, by decide⟩
+
 end Pegnet.C08
 
 #print axioms Pegnet.C08.block_application_returns
@@ -164,3 +192,5 @@ end Pegnet.C08
 #print axioms Pegnet.C08.invalid_entry_is_skipped
 #print axioms Pegnet.C08.all_invalid_entries_are_a_noop
 #print axioms Pegnet.C08.invalid_held_entry_is_rejected_not_fatal
+#print axioms Pegnet.C08.transfer_entry_never_fails
+#print axioms Pegnet.C08.transfer_batch_applied_or_rejected
